@@ -1,5 +1,6 @@
-(* VarOptDefs.v — executable model of sampling/include/var_opt_sketch_impl.hpp (and, second stage,
-   var_opt_union_impl.hpp).  No proofs here.
+(* VarOptDefs.v — executable model of sampling/include/var_opt_sketch_impl.hpp and var_opt_union_impl.hpp
+   (update, merge_items, resolve_tau, get_result with its three coercers, decrease_k_by_1, the round trips).
+   No proofs here.
 
    Representation.  The C++ object keeps three parallel arrays data_/weights_/marks_ of k+1 slots that
    are split, left to right, into the regions H (binary min-heap on weight, slots [0,h)), M (transient,
@@ -9,8 +10,9 @@
      vM : (item, weight, mark) in slot order            -- m_ = length vM + vmb
      vR : items in slot order                           -- r_ = length vR
    The gap, the -1.0 sentinels in weights_ and the marks of R slots are never read by the code and are not
-   represented.  [vmb] is a phantom M count: deserialize() constructs an estimation-mode sketch with
-   m_ = 1 although no slot belongs to M; the model keeps that quirk (see [deser_m]).
+   represented.  [vmb] is a phantom M count: before fixes/16_deserialize_m.patch deserialize() constructed an
+   estimation-mode sketch with m_ = 1 although no slot belongs to M; the repaired code (and the model) pass 0, the old
+   value is kept as [deser_m_old] for coq/Regression_varopt.v.
    Every function below is the C++ function of the same name; a C++ `throw std::logic_error` is [None].
    Random choices (next_int, next_double_exclude_zero) are consumed, in order, from a list of raw tokens.
 
@@ -446,16 +448,19 @@ Section WithNum.
     if (rr (ugad u) =? 0)%nat then None else Some (get_tau (ugad u)).
 
   (* mark_moving_gadget_coercer(sk): marked H items go to R (filled from the back), unmarked stay in H in array
-     order (H is NOT re-heapified by the code) *)
-  Definition mark_moving (u : vu) (sk : vo) : option vo :=
+     order and are then re-heapified (convert_to_heap, since the repair fixes/16_union_pseudo_exact_heap.patch;
+     [heapify = false] is the unrepaired code, kept for Regression_varopt.v) *)
+  Definition mark_moving_gen (heapify : bool) (u : vu) (sk : vo) : option vo :=
     let g := ugad u in
     let marked := filter s_mark (vH g) in
     let unmarked := filter (fun x => negb (s_mark x)) (vH g) in
     let transferred := fold_left (fun a x => add a (s_wt x)) marked zero in
     let d := sub transferred (uotn u) in
     if ltb eps10 d || ltb d (mul m1 eps10) then None else
-    Some (mkvo (hh g + rr g) (un u) (map (fun x => mkslot (s_item x) (s_wt x) false) unmarked) (vM sk) (vmb sk)
+    let H0 := map (fun x => mkslot (s_item x) (s_wt x) false) unmarked in
+    Some (mkvo (hh g + rr g) (un u) (if heapify then convert_to_heap H0 else H0) (vM sk) (vmb sk)
                (rev (vR g ++ map s_item marked)) (add (vtot g) transferred) false 0).
+  Definition mark_moving : vu -> vo -> option vo := mark_moving_gen true.
 
   Fixpoint dec_loop (fuel : nat) (s : vo) (c : chs) : option (vo * chs) :=
     if (vmarks s =? 0)%nat then Some (s, c) else
@@ -485,17 +490,18 @@ Section WithNum.
                end
       end.
 
-  Definition get_result_gen (a4 : vu -> option num) (u : vu) (c : chs) : option (vo * chs) :=
+  Definition get_result_gen2 (heapify : bool) (a4 : vu -> option num) (u : vu) (c : chs) : option (vo * chs) :=
     let g := ugad u in
     if (vmarks g =? 0)%nat then Some (copy_as g true (un u), c)
     else
       let gcopy := copy_as g false (un u) in
       if (rr g =? 0)%nat && (0 <? vmarks g)%nat && (vmarks g =? uotd u)%nat && negb (exists_unmarked_lighter g (a4 u))
-      then match mark_moving u gcopy with
+      then match mark_moving_gen heapify u gcopy with
            | None => None
            | Some r => Some (r, c)
            end
       else migrate gcopy c.
+  Definition get_result_gen : (vu -> option num) -> vu -> chs -> option (vo * chs) := get_result_gen2 true.
   Definition get_result : vu -> chs -> option (vo * chs) := get_result_gen a4_target.
 End WithNum.
 
